@@ -4,13 +4,16 @@ package kv
 
 import (
 	"context"
+	"errors"
 	"fmt"
 
 	dbm "github.com/tendermint/tm-db"
 
 	abci "github.com/tendermint/tendermint/abci/types"
 	vp "github.com/tendermint/tendermint/internal/verifvp"
+	"github.com/tendermint/tendermint/libs/log"
 	"github.com/tendermint/tendermint/libs/pubsub/query"
+	"github.com/tendermint/tendermint/state/txindex"
 	"github.com/tendermint/tendermint/types"
 )
 
@@ -83,3 +86,68 @@ func vpC19Search(n int) {
 
 func VP_C19_Search_n3() { vpC19Search(3) }
 func VP_C19_Search_n4() { vpC19Search(4) }
+
+// ---------------------------------------------------------------- C19: the indexer service
+
+type vpBlockIndexer struct {
+	failAt map[int64]bool
+	seen   []int64
+}
+
+func (b *vpBlockIndexer) Has(h int64) (bool, error) { return false, nil }
+func (b *vpBlockIndexer) Index(e types.EventDataNewBlockHeader) error {
+	b.seen = append(b.seen, e.Header.Height)
+	if b.failAt[e.Header.Height] {
+		return errors.New("block events rejected")
+	}
+	return nil
+}
+func (b *vpBlockIndexer) Search(ctx context.Context, q *query.Query) ([]int64, error) {
+	return nil, nil
+}
+
+// Every committed transaction is indexed under its height and position, also when indexing the
+// block's own events fails for some block (the service is configured to carry on, as the node does).
+func VP_C19_IndexerService() {
+	bus := types.NewEventBus()
+	if err := bus.Start(); err != nil {
+		panic(err)
+	}
+	txi := NewTxIndex(dbm.NewMemDB())
+	bi := &vpBlockIndexer{failAt: map[int64]bool{}}
+	svc := txindex.NewIndexerService(txi, bi, bus, false)
+	svc.SetLogger(log.NewNopLogger())
+	if err := svc.Start(); err != nil {
+		panic(err)
+	}
+	type committed struct {
+		h  int64
+		i  uint32
+		tx types.Tx
+	}
+	var all []committed
+	for h := int64(1); h <= 2; h++ {
+		n := int64(vp.Range("txs-in-block", 0, 2))
+		bi.failAt[h] = vp.Bool("block-events-rejected")
+		if err := bus.PublishEventNewBlockHeader(types.EventDataNewBlockHeader{Header: types.Header{Height: h}, NumTxs: n}); err != nil {
+			panic(err)
+		}
+		for i := int64(0); i < n; i++ {
+			tx := types.Tx{byte(h), byte(i), 0x74}
+			if err := bus.PublishEventTx(types.EventDataTx{TxResult: abci.TxResult{Height: h, Index: uint32(i), Tx: tx, Result: abci.ResponseDeliverTx{}}}); err != nil {
+				panic(err)
+			}
+			all = append(all, committed{h, uint32(i), tx})
+		}
+	}
+	vp.Settle()
+	for _, c := range all {
+		r, err := txi.Get(c.tx.Hash())
+		vp.Assert(err == nil && r != nil, "C19.index.every-committed-transaction-is-indexed")
+		if r != nil {
+			vp.Assert(r.Height == c.h && r.Index == c.i, "C19.index.under-its-height-and-position")
+		}
+	}
+	vp.Assert(len(bi.seen) == 2 && bi.seen[0] == 1 && bi.seen[1] == 2, "C19.index.every-committed-block-is-handed-to-the-block-indexer-once-in-order")
+	vp.Reach("indexed")
+}
